@@ -38,6 +38,33 @@ func main() {
 			os.Exit(2)
 		}
 		os.Exit(core.RunReplay(c, rf))
+	case "sigs":
+		// verif sigs <id> <seed> <runs> [tier]: one line per run with everything
+		// that must be a pure function of the tape (determinism self-test)
+		c := checks.Get(os.Args[2])
+		if c == nil {
+			fmt.Println("FATAL unknown property (or not built into this binary):", os.Args[2])
+			os.Exit(2)
+		}
+		seed, _ := strconv.ParseUint(os.Args[3], 10, 64)
+		n, _ := strconv.Atoi(os.Args[4])
+		tier := "quick"
+		if len(os.Args) > 5 {
+			tier = os.Args[5]
+		}
+		for i := 0; i < n; i++ {
+			rs := tape.Mix(seed, uint64(i))
+			tp := tape.New(rs)
+			res := c.Run(tp, core.RunOpt{Tier: tier})
+			var cls []string
+			for _, v := range res.Violations {
+				if !strings.HasPrefix(v.Class, "race:") {
+					cls = append(cls, v.Class)
+				}
+			}
+			fmt.Printf("%d %d sig=%016x evals=%d steps=%d tape=%d classes=%v\n", i, rs, res.Sig, res.Evaluations, res.Steps, tp.Len(), cls)
+		}
+		os.Exit(0)
 	case "one":
 		// debugging aid: verif one <id> <run-seed> [tier]
 		c := checks.Get(os.Args[2])
